@@ -8,8 +8,14 @@ Open Scope Z_scope.
 (* well-formed input: every row has the length of the first one *)
 Definition wf (M : list (list Z)) : bool :=
   forallb (fun row => (length row =? n_cols M)%nat) M.
-(* the class in which the code returns one entry per row (see C10_zero_cols_refuted) *)
-Definition has_cols (M : list (list Z)) : bool := negb (n_cols M =? 0)%nat.
+(* the class in which the code returns one entry per row: no rows at all, or a non-empty first row
+   (for r > 0 rows of length 0 the early return gives [] - see C10_zero_cols_refuted) *)
+Definition has_cols (M : list (list Z)) : bool :=
+  match M with
+  | [] => true
+  | [] :: _ => false
+  | _ => true
+  end.
 
 Definition assigned (a : list Z) : list Z := filter (fun x => negb (x =? -1)) a.
 
